@@ -10,6 +10,8 @@ CONSTANTS
   FixNonRequest = FALSE
   FixLongWs = TRUE
   FarChoices = {TRUE, FALSE}
+  HasValidator = TRUE
+  NilPointerSkipsValidation = TRUE
 INIT TableInit
 NEXT TableNext
 INVARIANTS TypeOK PShape POnePerEntry PResponses PTopLevel PInvocations PInFlight
